@@ -84,6 +84,7 @@ def check(model: Model, run: Run) -> None:
                          "the stream-level reader is used for something other than validated reads (skip_value/get_remaining_data advance without checking that the bytes are there)", ""))
     lemma_no_consume_on_failure(model, run, "C06")
     lemma_identity_before_completeness(model, run)
+    decoded_values_not_tested_for_truth(model, run, mr)
     # "returned as a message or a protocol error is raised": nothing else may leave receive
     from ..sessrules import extraction
     from .c05 import escape_set_rule
@@ -150,3 +151,91 @@ def enclosing_tests(func: ast.AST, target: ast.AST):
         return False
     visit(func, [])
     return out
+
+
+def truth_of_package_values(model: Model, run: Run, mr, rule: str, what: str) -> None:
+    """`x or default`, `if x:`, `not x` in the session module on a value of a package class: harmless while no class in that
+    hierarchy defines __bool__ / __len__ (truth == "is not None"); once one does, a legitimate falsy value (an empty AND
+    filter, an empty reference list) is silently replaced or dropped."""
+    n = 0
+    for fq, fi in list(model.functions.items()):
+        if isinstance(fi.node, ast.Lambda) or fi.module != SESSION_MOD:
+            continue
+        env = mr.r.env(fi)
+        risky = {}
+        for k, t in env.items():
+            t0 = mr.r.strip_opt(t)
+            if t0[0] == "inst" and t0[1] in model.classes and t0[1].startswith("sansldap.") and not model.classes[t0[1]].is_enum and \
+                    any(model.classes[k_].is_dataclass for k_ in model.classes[t0[1]].mro if k_ in model.classes):
+                # value types only (dataclasses): a reader or a writer is *meant* to be tested for "anything left"
+                caps = [q for q in model.subclasses(t0[1]) if any(mn in model.classes[q].methods for mn in ("__bool__", "__len__"))]
+                if caps:
+                    risky[k] = caps
+        if not risky:
+            continue
+        for x in walk_no_nested(fi.node):
+            hit = None
+            if isinstance(x, ast.BoolOp):
+                hit = next((v for v in x.values[:-1] if isinstance(v, ast.Name) and v.id in risky), None)
+            elif isinstance(x, ast.UnaryOp) and isinstance(x.op, ast.Not) and isinstance(x.operand, ast.Name) and x.operand.id in risky:
+                hit = x.operand
+            elif isinstance(x, (ast.If, ast.While, ast.IfExp)) and isinstance(x.test, ast.Name) and x.test.id in risky:
+                hit = x.test
+            if hit is None:
+                continue
+            n += 1
+            run.ob(rule, False, {"function": fq.split("sansldap.")[-1], "value": hit.id})
+            run.fail(Finding(rule, fq, norm(x)[:80] if not isinstance(x, (ast.If, ast.While)) else norm(x.test)[:80],
+                             f"{fq.split('sansldap.')[-1]} decides by the truth of `{hit.id}`; {', '.join(c.split('.')[-1] for c in risky[hit.id])} define(s) __bool__/__len__, "
+                             f"so a falsy but legitimate value is {what}", model.loc(fi.module, x)))
+    run.coverage["truth_tests_on_falsy_capable_values"] = n
+    run.ob(rule, True, {"falsy_capable_values_tested": n}) if n == 0 else None
+
+
+def decoded_values_not_tested_for_truth(model: Model, run: Run, mr) -> None:
+    """Q6: between decoding a message and returning it, the session never decides anything by the *truth value* of a message whose
+    class (or a subclass) defines __bool__ / __len__: a message that happens to be falsy (an empty reference list, an empty
+    filter set) would be taken for "nothing decoded" and dropped after its bytes were consumed.  With no such dunder in the
+    message hierarchy a truth test is an `is not None` test and nothing is flagged."""
+    base = "sansldap._messages.LDAPMessage"
+    if base not in model.classes:
+        raise AnalysisError("LDAPMessage not found")
+    falsy_capable = sorted(q for q in model.subclasses(base) if any(mn in model.classes[q].methods for mn in ("__bool__", "__len__")))
+    run.coverage["message_classes_with_truth_dunder"] = [q.split(".")[-1] for q in falsy_capable]
+    n = 0
+    for fq, fi in list(model.functions.items()):
+        if isinstance(fi.node, ast.Lambda) or fi.module != SESSION_MOD:
+            continue
+        env = mr.r.env(fi)
+        msg_names = set()
+        for k, t in env.items():
+            t0 = mr.r.strip_opt(t)
+            if t0[0] == "inst" and t0[1] in model.classes and (model.is_subclass(t0[1], base) or t0[1] == base):
+                msg_names.add(k)
+        if not msg_names:
+            continue
+        tests = []
+        for x in walk_no_nested(fi.node):
+            if isinstance(x, (ast.If, ast.While, ast.IfExp)):
+                tests.append(x.test)
+            elif isinstance(x, ast.Assert):
+                tests.append(x.test)
+        for t in tests:
+            for y in ast.walk(t):
+                hit = None
+                if isinstance(y, ast.UnaryOp) and isinstance(y.op, ast.Not) and isinstance(y.operand, ast.Name) and y.operand.id in msg_names:
+                    hit = y.operand
+                elif isinstance(y, ast.BoolOp):
+                    hit = next((v for v in y.values if isinstance(v, ast.Name) and v.id in msg_names), None)
+                elif y is t and isinstance(y, ast.Name) and y.id in msg_names:
+                    hit = y
+                if hit is None:
+                    continue
+                n += 1
+                ok = not falsy_capable
+                run.ob("Q6-decoded-message-not-tested-for-truth", ok, {"function": fq.split("sansldap.")[-1], "test": norm(t)[:60]})
+                if not ok:
+                    run.fail(Finding("Q6-decoded-message-not-tested-for-truth", fq, norm(t)[:80],
+                                     f"{fq.split('sansldap.')[-1]} branches on the truth of `{hit.id}`, a decoded message; {', '.join(c.split('.')[-1] for c in falsy_capable)} "
+                                     "define(s) __bool__/__len__, so a complete message that is falsy is treated as absent after its bytes were consumed", model.loc(fi.module, t)))
+    run.coverage["truth_tests_on_messages"] = n
